@@ -18,9 +18,9 @@ import (
 	"github.com/zclconf/go-cty/cty/function"
 )
 
-var attrNames = []string{"a", "ab", "abc", "b", "count", "for_each", "name", "type", "id", "attr", "x1", "each", "self", "source", "lbl"}
+var attrNames = []string{"a", "ab", "abc", "b", "count", "for_each", "name", "type", "id", "attr", "x1", "each", "self", "source", "lbl", "abo\u0301d"}
 var blockNames = []string{"res", "data", "blk", "nested", "content", "lifecycle", "b1", "ab", "dynamic", "provider"}
-var labelVals = []string{"aws", "gcp", "x", "ab", "a-b", "é"}
+var labelVals = []string{"aws", "gcp", "x", "ab", "a-b", "é", "e\u0301x"}
 var scopeIds = []lang.ScopeId{"", "variable", "resource", "local"}
 var refRoots = []string{"var", "local", "data", "res", "blk", "self", "count", "each", "a"}
 
@@ -132,6 +132,14 @@ func genValue(r *rand.Rand, d int) cty.Value {
 		return cty.StringVal(pick(r, []string{"foo", "bar", "v1", "v2", "a b", "é", "q\"x"}))
 	case 4:
 		if d > 0 {
+			switch r.Intn(4) {
+			case 0:
+				return cty.SetVal([]cty.Value{cty.StringVal("one"), cty.StringVal("two")})
+			case 1:
+				return cty.MapVal(map[string]cty.Value{"k1": cty.NumberIntVal(1), "k2": cty.NumberIntVal(2)})
+			case 2:
+				return cty.TupleVal([]cty.Value{cty.StringVal("t"), cty.NumberIntVal(3)})
+			}
 			return cty.ListVal([]cty.Value{cty.StringVal("l1"), cty.StringVal("l2")})
 		}
 		return cty.NumberFloatVal(1.5)
@@ -497,7 +505,7 @@ func (g *exprGen) literal(t cty.Type, d int) string {
 	case t == cty.Number:
 		return pick(r, []string{"0", "42", "1.5", "-3"})
 	case t == cty.String:
-		return pick(r, []string{`"foo"`, `"v1"`, `"v2"`, `"é世"`, `""`, "<<EOT\nheredoc\nEOT", `"a b"`})
+		return pick(r, []string{`"foo"`, `"v1"`, `"v2"`, `"é世"`, `""`, "<<EOT\nheredoc\nEOT", `"a b"`, "\"o\u0301 👨‍👩‍👧\""})
 	case t == cty.DynamicPseudoType:
 		return pick(r, []string{`"dyn"`, "7", "true", "[1, 2]", "{ k = 1 }"})
 	case t.IsListType() || t.IsSetType():
@@ -640,6 +648,21 @@ func (g *exprGen) forCons(c schema.Constraint, d int) string {
 			case cc.Value.Type() == cty.Number:
 				return cc.Value.AsBigFloat().Text('f', -1)
 			}
+		}
+		if cc.Value.IsKnown() && !cc.Value.IsNull() && (cc.Value.Type().IsSetType() || cc.Value.Type().IsListType() || cc.Value.Type().IsTupleType()) && r.Intn(2) == 0 {
+			// the declared elements, some of them replaced by literals of another type or missing
+			var es []string
+			for it := cc.Value.ElementIterator(); it.Next(); {
+				_, v := it.Element()
+				switch r.Intn(4) {
+				case 0:
+					es = append(es, pick(r, []string{"2", "true", "null", `"zzz"`, "[]"}))
+				case 1:
+				default:
+					es = append(es, g.literal(v.Type(), 1))
+				}
+			}
+			return "[" + strings.Join(es, ", ") + "]"
 		}
 		return g.literal(cc.Value.Type(), 2)
 	case schema.Keyword:
